@@ -88,6 +88,63 @@ CHECKS = {
             "destination's bytes are judged.",
             "FICLONE emulated; C01 enumerates damage positions exhaustively, C18 takes one representative per class.",
             "DESIGN.md §5 C18"),
+    "C03": ("fault_enumeration",
+            "runtime monitoring under a ptrace supervisor: SIGKILL at every visible system call of every write scenario and torn write(2) lengths; content-area digest walk after each kill",
+            "For each write scenario a traced baseline lists the file-system calls; every one is used as a kill point and every "
+            "write(2) is torn (all lengths <= 256 bytes, boundary lengths above); after each kill every file under content-v2 is "
+            "re-hashed against its path and a fresh process cross-checks exists/read_hash.",
+            "Process kill only (no power-loss model). Async modes: kill points index arrival order, each repeated.",
+            "DESIGN.md §5 C03"),
+    "C04": ("fault_enumeration",
+            "runtime monitoring under a ptrace supervisor: kill at every visible call + every torn prefix of the index append; old-or-new oracle from fresh sync/async readers; continuation must succeed",
+            "First write, overwrite, removal, multi-byte UTF-8 key/metadata, 2 KiB metadata and one-shot write are interrupted at "
+            "every system call and the index append is torn at every byte; fresh readers in three modes must see exactly the old "
+            "or the new entry, bystanders unchanged, and a continuation must succeed and become visible.",
+            "Quick tier thins torn lengths for some scenarios (exhaustive for the UTF-8 and removal scenarios in sync mode).",
+            "DESIGN.md §5 C04"),
+    "C07": ("exploration",
+            "runtime monitoring: ptrace-controlled schedule exploration (exhaustive DFS over system-call interleavings of 2-3 processes on warm caches, random/PCT elsewhere) with a serializability oracle; multi-process stress with WGL linearizability checking; ThreadSanitizer in thorough",
+            "Pairs and triples of conflicting operations run as separate processes whose file-system calls are interleaved by the "
+            "supervisor in every order (warm caches, sync) or in seeded random orders (cold caches, async runtimes); every run must "
+            "match some serial order in results and final state and leave structurally clean buckets. A free-running stress with "
+            "unique values is checked per key/address for linearizability and record conservation.",
+            "System-call granularity; clear/remove_fully excluded by the property; TSan only in the thorough tier.",
+            "DESIGN.md §5 C07"),
+    "C12": ("exploration",
+            "runtime monitoring: differential execution of generated programs (incl. damage steps) across sync / async-std / tokio builds, step-by-step and final-tree comparison, mixed-mode runs",
+            "Generated programs over the whole op table, with harness steps that damage content and bucket files, are executed in "
+            "every mode on fresh caches and with steps routed to alternating modes on one shared cache; classifications, data, "
+            "metadata, destination files and decoded final trees must agree.",
+            "Error context strings and io::ErrorKind are not compared; default timestamps normalised.",
+            "DESIGN.md §5 C12"),
+    "C13": ("fault_enumeration",
+            "runtime monitoring under a ptrace supervisor: errno injection at every visible system call (class-specific errnos, short write + ENOSPC), truthfulness / state / retry oracles",
+            "For 15 operations x modes every file-system call is failed with each errno of its class; the monitor requires no "
+            "panic or hang, truthful Ok, old-or-new after failed writes, intact bystanders, a valid content area, clean buckets, "
+            "and success of the same call once the fault is gone. Thorough adds fault pairs.",
+            "close() and ENOENT are not injected.",
+            "DESIGN.md §5 C13"),
+    "C15": ("exploration",
+            "runtime monitoring: system-call trace monitor (ptrace) over hostile/confusable keys with decoy TMPDIR/HOME/cwd; every path-taking call classified",
+            "26-operation scripts per hostile key and mode run traced; every successful mutating call must hit the cache or the "
+            "explicit destination, read-only operations must not mutate, every path inside the cache must be hash-derived, the "
+            "decoy tree must be unchanged; confusable key groups must stay distinct.",
+            "Async runtimes' writes to eventfds/pipes are not file-system mutations.",
+            "DESIGN.md §5 C15"),
+    "C19": ("exploration",
+            "runtime monitoring: link_to entry points x target length x absolute/relative paths (driver chdir) x partial reads x post-link target mutation; byte, lstat and target-snapshot oracles",
+            "All link_to entry points in all modes with absolute and relative targets, partial reads before commit, pre-existing "
+            "content, size/integrity options, and later modification/removal of the target; reads must return the link-time bytes "
+            "or fail, the content path must be a symlink, the target must be untouched.",
+            "Targets on the same tmpfs.",
+            "DESIGN.md §5 C19"),
+    "C20": ("exploration",
+            "runtime monitoring: panic hook + catch_unwind + process-death + CPU-time watchdog over random programs, the writer option space, 20 hostile on-disk states and hostile keys; sanitizer replays in thorough",
+            "Every public operation in every mode against random programs with damage, panic-prone writer options, hostile "
+            "directory states (directories/symlinks/loops/garbage where files are expected) and hostile keys; any panic, background "
+            "panic, process death or hang is a violation.",
+            "Integrity arguments well-formed; FIFOs/devices excluded.",
+            "DESIGN.md §5 C20"),
 }
 
 NOT_YET = {
